@@ -2,7 +2,7 @@
    [vm_compute] evaluation inside coqc run exactly the same function.
    A case is a list of numbers; the first is the case kind. *)
 From Coq Require Import NArith List Bool.
-From PDB Require Import Gen.Consts Model.IndexPage Model.Pipeline Model.Meta Model.Migrate Model.ValueTable Model.MultiTree Model.BTreeIter Model.BTreeCheck Model.Wal Model.WalCodec Model.StorageCheck Model.Lock Model.Readers Model.TableAlloc.
+From PDB Require Import Gen.Consts Model.IndexPage Model.Pipeline Model.Meta Model.Migrate Model.ValueTable Model.MultiTree Model.BTreeIter Model.BTreeCheck Model.Wal Model.WalCodec Model.StorageCheck Model.Lock Model.Readers Model.TableAlloc Model.IndexSlots.
 Import ListNotations.
 Open Scope N_scope.
 
@@ -521,6 +521,39 @@ Definition run_c14_alloc (l : list N) : list N :=
   | _ => err_marker
   end.
 
+(* ---- kind 109: index slots. 109 nops op* ; op: 1 key known addr | 2 key known | 3 (reindex batch) | 4 (restart).
+   Output after every op: number of generations, then per generation (oldest first, the current one last):
+   bits, number of non-empty pages, per page (ascending): page, number of entries, (slot, known, addr)* ---- *)
+Fixpoint enc_slots (l : list slot) (i : N) : list N :=
+  match l with
+  | [] => []
+  | Some e :: r => i :: e_known e :: e_addr e :: enc_slots r (i + 1)
+  | None :: r => enc_slots r (i + 1)
+  end.
+Definition enc_gen (g : igen) : list N :=
+  let ps := pages_from g 0 in
+  g_bits g :: N.of_nat (length ps) ::
+  flat_map (fun p => p :: N.of_nat (length (entries_of (get_page g p))) :: enc_slots (get_page g p) 0) ps.
+Definition enc_index (st : istate) : list N :=
+  N.of_nat (S (length (queue st))) :: flat_map enc_gen (queue st ++ [cur st]).
+Fixpoint index_trace (fuel : nat) (l : list N) (st : istate) : list N :=
+  match fuel with
+  | O => []
+  | S f =>
+      match l with
+      | 1 :: k :: kn :: a :: r => let st' := istep st (ISet k kn a) in enc_index st' ++ index_trace f r st'
+      | 2 :: k :: kn :: r => let st' := istep st (IRemove k kn) in enc_index st' ++ index_trace f r st'
+      | 3 :: r => let st' := istep st IReindex in enc_index st' ++ index_trace f r st'
+      | 4 :: r => let st' := istep st IRestart in enc_index st' ++ index_trace f r st'
+      | _ => []
+      end
+  end.
+Definition run_c09_slots (l : list N) : list N :=
+  match l with
+  | n :: rest => index_trace (N.to_nat n) rest iinit
+  | _ => err_marker
+  end.
+
 (* ---- kind 18: lock protocol. 18 n op* ; op: 1 h open | 2 h drop | 3 h kill | 4 h c write.
    Output: one result per op, 99, the live handles, 98, the content ---- *)
 Fixpoint parse_lops (fuel : nat) (l : list N) : list lop :=
@@ -576,6 +609,7 @@ Definition dispatch (l : list N) : list N :=
   | 13 :: rest => run_c13 rest
   | 14 :: rest => run_c14 rest
   | 114 :: rest => run_c14_alloc rest
+  | 109 :: rest => run_c09_slots rest
   | 5 :: rest => run_c05 rest
   | 18 :: rest => run_c18 rest
   | 12 :: rest => run_c12 rest
